@@ -130,7 +130,10 @@ def redirect_server_thread(sock, rec):
             pass
 
 
-def run_case(c, cert, spelling="lower", via="direct"):
+def run_case(c, cert, spelling="lower", via="direct", short=False, prior_tunnel=False):
+    """short: the URL names the single-label host "good" and the resolver reports the canonical name "good.test" - the
+    certificate (for good.test) does not name the URL's host.  prior_tunnel: the earlier connection of the same object /
+    option dict went through the proxy."""
     import websocket
     import websocket._http as H
     rec = {}
@@ -138,7 +141,7 @@ def run_case(c, cert, spelling="lower", via="direct"):
     redir_rec = {}
     plan = []
     if c.get("prior"):
-        plan.append((prior_rec, (True, "other"), False))
+        plan.append((prior_rec, (True, "other"), bool(prior_tunnel)))
     if via == "redirect":
         plan.append((redir_rec, None, False))
     plan.append((rec, (cert["trusted"], cert["name"]), c["tunnel"] and via != "redirect"))
@@ -162,7 +165,10 @@ def run_case(c, cert, spelling="lower", via="direct"):
         made.append(1)
         return clients[min(len(made) - 1, len(clients) - 1)]
     sm.socket = mk
-    sm.getaddrinfo = lambda host, port, *x, **k: [(socket.AF_INET, socket.SOCK_STREAM, 6, "", ("10.0.0.1", port))]
+    def gai(host, port, family=0, type=0, proto=0, flags=0):
+        canon = ("good.test" if host == "good" else host) if flags & socket.AI_CANONNAME else ""
+        return [(socket.AF_INET, socket.SOCK_STREAM, 6, canon, ("10.0.0.1", port))]
+    sm.getaddrinfo = gai
     sslopt = {}
     cr = {"none": ssl.CERT_NONE, "optional": ssl.CERT_OPTIONAL, "required": ssl.CERT_REQUIRED}
     if c["certReqs"] != "absent":
@@ -209,7 +215,7 @@ def run_case(c, cert, spelling="lower", via="direct"):
         if c.get("prior"):
             # an earlier conversation of the same object (same sslopt dict) with another wss host
             try:
-                ws.connect("wss://other.test/first")
+                ws.connect("wss://other.test/first", **(dict(http_proxy_host="proxy.test", http_proxy_port=3128) if prior_tunnel else {}))
                 ws.close(timeout=0)
             except Exception:
                 pass
@@ -219,7 +225,7 @@ def run_case(c, cert, spelling="lower", via="direct"):
             if via == "redirect":
                 ws.connect("ws://good.test:443/first")
             else:
-                ws.connect("%s://good.test/tls" % sch, **kw)
+                ws.connect("%s://%s/tls" % (sch, "good" if short else "good.test"), **kw)
             outcome = "established" if c["scheme"] == "wss" else "plain"
             if isinstance(ws.sock, ssl.SSLSocket):
                 vm = int(ws.sock.context.verify_mode)
@@ -255,6 +261,10 @@ def run_case(c, cert, spelling="lower", via="direct"):
     for t_ in threads:
         t_.join(6)
     sni = rec.get("sni", "")
+    if short:
+        # the certificate for good.test is not a certificate for "good"; SNI must be the URL's host
+        cert = dict(cert, name="other")
+        sni = {"good": "good.test", "good.test": "other.test"}.get(sni, sni)
     return {"c": c, "cert": cert, "outcome": outcome, "firstByteTls": rec.get("first", -1) == 0x16,
             "sni": "good" if sni == "good.test" else "other" if sni == "other.test" else sni,
             "wsSeenByServer": bool(rec.get("ws_seen")), "wsBeforeHandshake": bool(rec.get("plain_request")) and c["scheme"] == "wss",
@@ -329,6 +339,14 @@ def main(ctx):
             ev.append(run_case(c, cert, spelling=sp))
     for c, cert in [x for x in wss if not x[0]["tunnel"]][:16 if ctx.tier == "quick" else 200]:
         ev.append(run_case(c, cert, via="redirect"))
+    # a single-label URL host whose canonical name (as the resolver reports it) is the name in the certificate
+    for c, cert in [x for x in wss if x[0]["serverName"] == "absent" and x[1]["name"] == "good"][:16 if ctx.tier == "quick" else 200]:
+        ev.append(run_case(c, cert, short=True))
+    # the earlier connection of the same object / option dict went through the proxy
+    pr = [(c, cert) for c, cert in cs if c["scheme"] == "wss" and c["prior"]]
+    rng.shuffle(pr)
+    for c, cert in pr[:24 if ctx.tier == "quick" else 300]:
+        ev.append(run_case(c, cert, prior_tunnel=True))
     d = tlc.scratch("c11_in")
     path = os.path.join(d, "tls.ndjson")
     tlc.write_ndjson(path, ev)
